@@ -197,6 +197,31 @@ def L(cid: int):  # noqa: N802
         f"class E{u}(Enum):\n    A = 1\n    B = 2\n\n\nclass Z{u}(IntEnum):\n    pass\n",
         {"enums": {f"E{u}": {"instances": [f"E{u}/A", f"E{u}/B"]}, f"Z{u}": {"instances": []}}, "enum_instances": [f"E{u}/A", f"E{u}/B"]},
     )
+    letters["enum_with_method"] = (
+        f"class EM{u}(Enum):\n    A = 1\n\n    def describe(self, a: int) -> int:\n        return a\n",
+        # (whether the method is listed at all is left open; if it is, it needs an owner: the structural part judges that)
+        {"enums": {f"EM{u}": {"instances": [f"EM{u}/A"]}}, "enum_instances": [f"EM{u}/A"], "dontcare_prefixes": [f"EM{u}/describe"]},
+    )
+    letters["class_name_ends_with_init"] = (
+        f"class Foo{u}__init__:\n    x: int = 1\n\n    def __init__(self, p: int) -> None:\n        self.y = p\n\n    def m(self, a: int) -> int:\n        return a\n",
+        merge({"classes": {f"Foo{u}__init__": {"has_ctor": True, "methods": [f"Foo{u}__init__/m"], "attributes": [f"Foo{u}__init__/x", f"Foo{u}__init__/y"]}}, "attributes": [f"Foo{u}__init__/x", f"Foo{u}__init__/y"]},
+              fn(f"Foo{u}__init__/__init__", ["self", "p"], 0), fn(f"Foo{u}__init__/m", ["self", "a"])),
+    )
+    letters["ctor_assignment_shapes"] = (
+        f"class CA{u}:\n    def __init__(self, p: int) -> None:\n        tmp, self.b = p, p\n        self.c: int = p\n        self.b.real2 = 3  # type: ignore[attr-defined]\n        self.d = self.e = p\n        local = p\n",
+        merge({"classes": {f"CA{u}": {"has_ctor": True, "attributes": [f"CA{u}/{a}" for a in ("b", "c", "d", "e")]}}, "attributes": [f"CA{u}/{a}" for a in ("b", "c", "d", "e")],
+               "attribute_flags": {f"CA{u}/{a}": {"is_static": False} for a in ("b", "c", "d", "e")}},
+              fn(f"CA{u}/__init__", ["self", "p"], 0)),
+    )
+    letters["ctor_conditional_attrs"] = (
+        f"class CC{u}:\n    def __init__(self, p: int) -> None:\n        self.first = p\n        if p:\n            self.inside = 1\n        else:\n            self.other = 2\n        for _i in range(p):\n            self.looped = _i\n        try:\n            self.tried = 1\n        finally:\n            self.last = p\n",
+        merge({"classes": {f"CC{u}": {"has_ctor": True, "attributes": [f"CC{u}/{a}" for a in ("first", "inside", "other", "looped", "tried", "last")]}}, "attributes": [f"CC{u}/{a}" for a in ("first", "inside", "other", "looped", "tried", "last")]},
+              fn(f"CC{u}/__init__", ["self", "p"], 0)),
+    )
+    letters["bases_aliased_import_same_last_name"] = (
+        f"class DA{u}(SupBase):\n    pass\n",
+        {"classes": {f"DA{u}": {"superclasses": ["vpkg.support.SupBase"]}}},
+    )
     letters["enum_in_class"] = (
         f"class H{u}:\n    class Col{u}(Enum):\n        RED = 1\n\n    def h(self) -> int:\n        return 1\n",
         merge({"classes": {f"H{u}": {"methods": [f"H{u}/h"]}}, "enums": {f"H{u}/Col{u}": {"instances": [f"H{u}/Col{u}/RED"]}}, "enum_instances": [f"H{u}/Col{u}/RED"]}, fn(f"H{u}/h", ["self"])),
@@ -224,7 +249,8 @@ def L(cid: int):  # noqa: N802
     return letters
 
 
-HEADER = "import collections\nimport functools\nfrom enum import Enum, IntEnum\nfrom typing import Generic, TypeVar, overload\n\nfrom vpkg import support\nfrom vpkg.support import SupBase\nfrom vpkg.support import SupBase2 as AliasedBase\n\nT = TypeVar('T')\n\n\n"
+HEADER = "import collections\nimport functools\nfrom enum import Enum, IntEnum\nfrom typing import Generic, TypeVar, overload\n\nfrom vpkg import support\nfrom vpkg.support2 import SupBase as OtherSupBase\nfrom vpkg.support import SupBase\nfrom vpkg.support import SupBase2 as AliasedBase\n\nT = TypeVar('T')\n\n\n"
+SUPPORT2 = "class SupBase:\n    def other(self) -> int:\n        return 1\n"
 SUPPORT = "class SupBase:\n    pass\n\n\nclass SupBase2:\n    pass\n\n\nclass SupOther:\n    pass\n"
 LETTER_NAMES = list(L(0))
 
@@ -254,7 +280,7 @@ def run(rep: Report, tier: str, seed: int) -> None:
         return f"i{mid:05d}", HEADER + "\n\n".join(parts), exps
 
     def build(us):
-        files = {f"{PKG}/__init__.py": "", f"{PKG}/support.py": SUPPORT}
+        files = {f"{PKG}/__init__.py": "", f"{PKG}/support.py": SUPPORT, f"{PKG}/support2.py": SUPPORT2}
         for u in us:
             mod, text, _ = render(u)
             files[f"{PKG}/{mod}.py"] = text
@@ -270,7 +296,7 @@ def run(rep: Report, tier: str, seed: int) -> None:
 
     def _owner_letter(detail: dict) -> str:
         s = json.dumps(detail)
-        for marker, name in (("/Col", "enum_in_class"), ("/inner", "nested_function"), ("/v", "property_setter")):
+        for marker, name in (("/Col", "enum_in_class"), ("/inner", "nested_function"), ("/v", "property_setter"), ("/EM", "enum_with_method")):
             if marker in s:
                 return name
         return "?"
@@ -293,7 +319,7 @@ def run(rep: Report, tier: str, seed: int) -> None:
             rep.case(label, True, sample={"unit": label, "python": text[len(HEADER) :][:300]} if u[0] % 97 == 0 else None)
             mid = f"{PKG}/{mod}"
             modq = mid.replace("/", ".")
-            mini = {f"{PKG}/__init__.py": "", f"{PKG}/support.py": SUPPORT, f"{PKG}/{mod}.py": text}
+            mini = {f"{PKG}/__init__.py": "", f"{PKG}/support.py": SUPPORT, f"{PKG}/support2.py": SUPPORT2, f"{PKG}/{mod}.py": text}
 
             def viol(clause, feat, detail, label=label, mini=mini) -> None:
                 rep.violation(clause, f"{clause}:{feat}|{label}", {"unit": label, **detail}, files=mini, src_rel=PKG, opts=opts)
